@@ -1,6 +1,6 @@
 (* Pattern/Translate.v — transliteration of pattern.Regexp / regexpNext / charClass,
    HasMeta, QuoteMeta (pattern/pattern.go, after the two fix: commits for a leading
-   '-' in a bracket and unclosed extended groups) and of internal.ExtendedPatternMatcher's
+   '-' in a bracket (leading, and after a class), escaped range ends and unclosed extended groups) and of internal.ExtendedPatternMatcher's
    !(...) path (internal/pattern.go).
    The pattern is a list of RUNES; the lexer {s, i} is a zipper (consumed runes
    reversed, remaining runes).  Each step yields the regexp TEXT exactly as the Go
@@ -118,7 +118,8 @@ Fixpoint conv (fuel : nat) (toks : list btok) : cv :=
   end.
 
 Record bst := { bs_toks : list btok (* reversed *); bs_slash : bool;
-                bs_def : option perr; bs_cls : option perr }.
+                bs_def : option perr; bs_cls : option perr;
+                bs_clsend : option nat (* classEnd: offset just after the last class element *) }.
 
 (* AST results may be "rejected by regexp" *)
 Inductive ore := OOk (r : re) | OBad | OUnmodelled.
@@ -149,18 +150,20 @@ Definition lit_re (s : list N) : re := fold_right (fun c r => RCat (RChar c) r) 
 Definition consumed (l0 l : lex) : list N := rev (firstn (length (lprev l) - length (lprev l0)) (lprev l)).
 
 Definition set_slash (st : bst) (b : bool) : bst :=
-  {| bs_toks := bs_toks st; bs_slash := bs_slash st || b; bs_def := bs_def st; bs_cls := bs_cls st |}.
+  {| bs_toks := bs_toks st; bs_slash := bs_slash st || b; bs_def := bs_def st; bs_cls := bs_cls st; bs_clsend := bs_clsend st |}.
 Definition push_tok (st : bst) (t : btok) : bst :=
-  {| bs_toks := t :: bs_toks st; bs_slash := bs_slash st; bs_def := bs_def st; bs_cls := bs_cls st |}.
+  {| bs_toks := t :: bs_toks st; bs_slash := bs_slash st; bs_def := bs_def st; bs_cls := bs_cls st; bs_clsend := bs_clsend st |}.
 Definition set_def (st : bst) (e : perr) : bst :=
   {| bs_toks := bs_toks st; bs_slash := bs_slash st;
-     bs_def := match bs_def st with None => Some e | d => d end; bs_cls := bs_cls st |}.
+     bs_def := match bs_def st with None => Some e | d => d end; bs_cls := bs_cls st; bs_clsend := bs_clsend st |}.
 Definition set_clserr (st : bst) : bst :=
   {| bs_toks := bs_toks st; bs_slash := bs_slash st;
      bs_def := match bs_def st with
                | None => Some EClass
                | d => d end;
-     bs_cls := Some EClass |}.
+     bs_cls := Some EClass; bs_clsend := bs_clsend st |}.
+Definition set_clsend (st : bst) (k : nat) : bst :=
+  {| bs_toks := bs_toks st; bs_slash := bs_slash st; bs_def := bs_def st; bs_cls := bs_cls st; bs_clsend := Some k |}.
 
 (* the `for { switch c {...}; c = sl.next() }` loop; [c] is the current rune, [l] the lexer after it *)
 Fixpoint bracket_loop (fuel : nat) (filenames neg : bool) (lit : lex) (c : N) (l : lex) (first : bool) (st : bst) : step :=
@@ -182,7 +185,7 @@ Fixpoint bracket_loop (fuel : nat) (filenames neg : bool) (lit : lex) (c : N) (l
           let '(c', l') := lnext l2 in bracket_loop fuel' filenames neg lit c' l' false st'
       else if c =? cDASH then
         let st1 := push_tok st BDash in
-        if first then continue st1
+        if first || (match bs_clsend st with Some k => Nat.eqb (lpos l - 1) k | None => false end) then continue st1
         else
           let a := llast l in let b0 := lpeek l in
           (* the range end may be an escaped rune: look through the backslash *)
@@ -208,7 +211,8 @@ Fixpoint bracket_loop (fuel : nat) (filenames neg : bool) (lit : lex) (c : N) (l
         let st1 := if err then set_clserr st else st in
         let st2 := match k with Some cl => push_tok st1 (BNamed cl) | None => push_tok st1 BOpen end in
         let st3 := set_slash st2 (filenames && existsb (fun x => x =? cSLASH) (firstn n (lrest l))) in
-        let '(c', l') := lnext (lskip n l) in bracket_loop fuel' filenames neg lit c' l' false st3
+        let st4 := match n with O => st3 | _ => set_clsend st3 (lpos (lskip n l)) end in
+        let '(c', l') := lnext (lskip n l) in bracket_loop fuel' filenames neg lit c' l' false st4
       else
         continue (push_tok (set_slash st (filenames && (c =? cSLASH))) (BChar c QRaw))
   end.
@@ -216,7 +220,7 @@ Fixpoint bracket_loop (fuel : nat) (filenames neg : bool) (lit : lex) (c : N) (l
 (* case '[' of regexpNext; [lit] = lexer just after the '[' *)
 Definition bracket (filenames : bool) (lit : lex) : step :=
   let literal := SOk [cBSL; cLBRK] (OOk (RChar cLBRK)) lit in
-  let st0 := {| bs_toks := []; bs_slash := false; bs_def := None; bs_cls := None |} in
+  let st0 := {| bs_toks := []; bs_slash := false; bs_def := None; bs_cls := None; bs_clsend := None |} in
   let fuel := S (S (length (lrest lit))) in
   let '(c, l) := lnext lit in
   if c =? 0 then literal else
